@@ -11,6 +11,7 @@ COMMON_TRUSTED = [
 
 # (file under coq/Gen, acra-vh arguments that print it): regenerated from /repo on every run
 GENERATORS = [
+    ("SqlSchema.v", ["sqlschema"]),
     ("TlsWrapper.v", ["tlswrapper"]),
     ("IsoTokenConsts.v", ["isotokenconsts"]),
     ("KeyNames.v", ["keynames"]),
@@ -28,6 +29,27 @@ def dom(name, run_mod, nq, nt, model=True):
 
 
 PROPS = {
+    "C16": {
+        "domains": [
+            {
+                "name": "c16",
+                "run_vo": "Model/RunSqlRedact.vo",
+                "n_quick": 400,
+                "n_thorough": 2400,
+                "model": True
+            }
+        ],
+        "trusted": [
+            "Gen/SqlSchema.v is printed by `acra-vh sqlschema` (go/parser over the sqlparser sources compiled into the harness): node types, SQLNode-typed fields, the fields each walkSubtree hands to Walk, the ValType enum, sqlToBindvar's conversion table, the redact-mode flag, HandleRawSQLQuery's NotParsedStatement branch, the arguments of the partial-DDL log call. The extraction is syntactic (selectors on the receiver inside walkSubtree count as walked)",
+            "modelled, not verified: the SQL grammar and printer (which literal positions exist, how a tree is printed) - covered only by the marker oracle on the real parser; reflection-based AST -> generic tree conversion in the harness; sqltypes.NewValue's accept/reject answer is an input of the model (field ok of AVal)",
+            "hook sqlparser/export_verif.go (VerifRedactInPlace = Redact with the ValueMask prefix); the oracle compares its printed result with HandleRawSQLQuery's redacted text on every case",
+            "the firewall/proxy log model (censor_handle, proxy_debug_log, partial_ddl_log) is tied to the code by the log-capturing oracle only, not replayed case by case"
+        ],
+        "assumptions": [
+            "literal ValTypes = every member of the ValType enum except ValArg, PgPlaceholder, UnknownVal (specification, Model/SqlRedact.v non_literal_names)",
+            "type parameters (ColumnType/ConvertType Length, Scale) are part of a statement's shape, not client values (TYPE_PARAMETER_FIELDS)"
+        ]
+    },
     "C02": {
         "domains": [
             {
